@@ -3,6 +3,8 @@
 # meant for `vp run -- ./sweep_seeds.sh quick 2 40` (works in a snapshot: builds into ./target).
 tier=${1:-quick}; from=${2:-2}; to=${3:-20}
 cd "$(dirname "$0")"; mkdir -p tmp
+# with `vp run --with-repo` the sweep builds the snapshot of /repo, so edits to /repo meanwhile cannot disturb it
+[ -n "$VP_RUN_REPO" ] && export VERIF_REPO="$VP_RUN_REPO"
 ./check --setup >/dev/null 2>&1
 bad=0
 for seed in $(seq $from $to); do
